@@ -42,6 +42,17 @@ def setup():
     _setup_done = True
 
 
+def fresh_state():
+    """Forget every synrbl module (and with it any module-level state the code under test keeps: memo
+    tables, shared pools, class-level caches), import the tree again and re-install the seams. ~0.1 s.
+    Called before every plan, so a plan never depends on what its worker process ran before."""
+    setup()
+    for k in [k for k in sys.modules if k == "synrbl" or k.startswith("synrbl.")]:
+        del sys.modules[k]
+    seams._installed.clear()
+    seams.install()
+
+
 def _isnan(v):
     return isinstance(v, float) and math.isnan(v)
 
